@@ -143,7 +143,7 @@ def run(ctx):
                          "not counted) - candidate only, decided by the replay below" % mj["violated"])
     else:
         ctx.add_mc("Unresponsive exhaustive (P_Justified)", mj)
-    sim = vlib.tlc_sim(ctx, "Unresponsive", "Unresponsive_sim.cfg", num=ctx.pick(40, 400), depth=60, timeout=1200)
+    sim = vlib.tlc_sim(ctx, "Unresponsive", "Unresponsive_sim.cfg", num=ctx.pick(40, 120), depth=60, timeout=1200)
     behs = sim["behaviours"]
     ctx.cov["evaluations"] = len(behs)
     ctx.cov["rule"] = ("behaviours = TLC -simulate runs of Unresponsive.tla GenNext (60 steps: relay payments of 4 providers "
